@@ -434,11 +434,11 @@ def gen_step(rng, stream, budget):
         return ["rotate", rand_rotation(rng)]
     if r < 0.70:
         return ["rotate", quat_rotation(rand_quat_int(rng))]
-    if r < 0.82:
+    if r < 0.80:
         ax = rand_rotation(rng)[0]
         th = rng.choice([rng.uniform(0.01, 3.1), rng.uniform(0.01, 3.1), rng.uniform(3.2, 9.0), 0.0])
         return ["rodrigues", [x * th for x in ax]]
-    if r < 0.91:
+    if r < 0.87:
         while True:
             up = [rng.uniform(-1, 1) * 10.0 ** rng.uniform(-2, 2) for _ in range(3)]
             look = [rng.uniform(-1, 1) * 10.0 ** rng.uniform(-2, 2) for _ in range(3)]
@@ -451,11 +451,11 @@ def gen_step(rng, stream, budget):
     if not budget.take(abs(e) + 0.2):
         return ["rotate", rot.tolist()]
     lin = rot @ np.diag([10.0 ** e * rng.uniform(0.7, 1.3) for _ in range(3)])
-    nearly = rng.random() < 0.3
+    nearly = rng.random() < 0.5
     if nearly:
         # almost a rigid motion, but not one: a rotation times 1 +- 1e-7..1e-4 (per axis, or uniformly); its inverse is
         # not its transpose, whatever an allclose() says
-        d = 10.0 ** rng.uniform(-7, -4) * rng.choice([-1, 1])
+        d = 10.0 ** rng.uniform(-7.5, -4.5) * rng.choice([-1, 1])
         lin = rot @ np.diag([1.0 + d * rng.choice([1.0, 1.0, 0.5, 0.0]) for _ in range(2)] + [1.0 + d])
     m = np.eye(4)
     m[:3, :3] = lin
